@@ -27,6 +27,7 @@ func runC16(c *Ctx) {
 	checkCursorFieldAndFailureSeverity(c)
 	checkCleanupAgreesWithSafe(c)
 	checkEarlyStopIsError(c)
+	checkListingStableAndEventIds(c)
 }
 
 // R16.1
@@ -862,7 +863,7 @@ func checkCleanupAgreesWithSafe(c *Ctx) {
 			}
 			return rs[0].b, nil
 		}
-		bad, undec := "", ""
+		bad, undec, over := "", "", ""
 		for _, r := range runesToTry {
 			c.Sites++
 			removed, err := evalPred(r)
@@ -879,11 +880,16 @@ func checkCleanupAgreesWithSafe(c *Ctx) {
 			if !removed && !rs[0].b && bad == "" {
 				bad = fmt.Sprintf("U+%04X survives %s and is rejected by %s", r, pair[0], pair[1])
 			}
+			if removed && rs[0].b && over == "" {
+				over = fmt.Sprintf("U+%04X is removed by %s although %s accepts it", r, pair[0], pair[1])
+			}
 		}
 		if undec != "" {
 			c.Info("R16.8", key, w.FnPos(cf), "not interpreted: "+undec)
 			continue
 		}
+		c.Check(over == "", "R16.8", "text."+pair[0]+"-removes-only-what-"+pair[1]+"-rejects", w.FnPos(cf), fmt.Sprintf("%d runes: nothing that %s accepts is removed", len(runesToTry), pair[1]),
+			over+": text that is valid as typed (no-break and ideographic spaces, joiners inside emoji and Persian or Indic words, soft hyphens) is silently altered before it is recorded — the stored operation is not the requested change")
 		c.Check(bad == "", "R16.8", key, w.FnPos(cf), fmt.Sprintf("%d runes: every rune %s keeps is accepted by %s", len(runesToTry), pair[0], pair[1]),
 			bad+": tracker text containing it is cleaned, then refused by the operation's validation ('not fully printable') — the import of a healthy tracker reports an error on every round and the cursor is never stored")
 	}
@@ -993,4 +999,168 @@ func checkEarlyStopIsError(c *Ctx) {
 		}
 	}
 	c.Check(loops >= 1, "R16.9", "gitlabImporter.ImportAll:loops-found", w.FnPos(fn), fmt.Sprintf("%d channel loops, %d early exits, each reported", loops, exits), "no loop over a listing channel found in the importer's goroutine")
+}
+
+// R16.10–R16.12: three more conditions of "every tracker event is imported exactly once".
+func checkListingStableAndEventIds(c *Ctx) {
+	w := c.W
+	c.Doc("R16.10", "the paged issue listing is ordered by a key that cannot change while the pages are fetched: ListProjectIssuesOptions.OrderBy is left unset (creation time) or set to created_at — ordering by updated_at lets an issue updated between two page requests move behind the cursor of the listing and push another issue onto a page already fetched")
+	c.Doc("R16.11", "the id under which an imported event is remembered is that event's own id: each Event implementation's ID() formats the ID field of the go-gitlab value it wraps (not the id of the issue it belongs to, which all events of one issue share)")
+	c.Doc("R16.12", "for every listed issue the notes, label events and state events are listed: the SortedEvents call of ImportAll is conditional on nothing but the success of ensureIssue")
+	// R16.10
+	if fn := w.Func("bridge/gitlab", "Issues"); fn != nil {
+		c.seeFn(funcName(fn))
+		bad, n := "", 0
+		for _, f := range append([]*ssa.Function{fn}, fn.AnonFuncs...) {
+			for _, b := range f.Blocks {
+				for _, ins := range b.Instrs {
+					st, ok := ins.(*ssa.Store)
+					if !ok {
+						continue
+					}
+					fa, ok := st.Addr.(*ssa.FieldAddr)
+					if !ok || !strings.HasSuffix(typeShortName(fa.X.Type()), "ListProjectIssuesOptions") {
+						continue
+					}
+					n++
+					c.Sites++
+					if fieldName(fa) != "OrderBy" {
+						continue
+					}
+					val := "?"
+					for _, o := range origins(st.Val) {
+						if o.Kind == "call" {
+							if cv, isCall := o.Val.(*ssa.Call); isCall && len(cv.Common().Args) == 1 {
+								if s, isS := constString(cv.Common().Args[0]); isS {
+									val = s
+								}
+							}
+						}
+					}
+					if val != "created_at" {
+						bad = "OrderBy = " + val + " at " + w.InstrPos(st)
+					}
+				}
+			}
+		}
+		c.Check(bad == "" && n >= 2, "R16.10", "gitlab.Issues:stable-listing-order", w.FnPos(fn), fmt.Sprintf("%d option fields set; ordering key unset or created_at", n), "the issue listing is ordered by a key that changes during the round ("+bad+"): an issue can be skipped by the paging without any request failing, the round looks clean, the cursor is stored and the issue is never listed again")
+	} else {
+		c.Undecided("R16.10", "anchor:gitlab.Issues", "bridge/gitlab", "not found")
+	}
+	// R16.11
+	nID := 0
+	for _, f := range w.ModFns {
+		if fnPkgPath(f) != modPath+"/bridge/gitlab" || f.Name() != "ID" || f.Signature.Recv() == nil || isInstance(f) {
+			continue
+		}
+		if f.Synthetic != "" {
+			continue
+		}
+		rets := Returns(f)
+		if len(rets) != 1 || len(rets[0].Results) != 1 {
+			continue
+		}
+		c.seeFn(funcName(f))
+		res := ReturnResult(rets[0], 0)
+		if s, isS := constString(res); isS && s == "" {
+			c.Info("R16.11", funcName(f)+":own-id", w.FnPos(f), "no id (error event)")
+			continue
+		}
+		nID++
+		c.Sites++
+		tok := feedTokens(res)
+		var flds []string
+		for _, t := range tokensWithPrefix(tok, "field:") {
+			if i := strings.LastIndex(t, "."); i >= 0 {
+				flds = append(flds, t[i+1:])
+			}
+		}
+		hasID, other := false, ""
+		recvName := typeShortName(f.Signature.Recv().Type())
+		if i := strings.LastIndex(recvName, "."); i >= 0 {
+			recvName = recvName[i+1:]
+		}
+		for _, fl := range flds {
+			switch {
+			case fl == "ID":
+				hasID = true
+			case strings.HasSuffix(fl, "ID") || strings.HasSuffix(fl, "Id") || strings.HasSuffix(fl, "IID"):
+				other = fl
+			}
+		}
+		c.Check(hasID && other == "", "R16.11", funcName(f)+":own-id", w.FnPos(f), "formats the wrapped value's ID field", fmt.Sprintf("the event id is computed from %v instead of the event's own ID: all events of that kind on one issue share it, so every one after the first is taken for already imported and dropped", flds))
+	}
+	c.Check(nID >= 3, "R16.11", "expected:event-id-methods", "bridge/gitlab", fmt.Sprintf("%d event ID methods", nID), fmt.Sprintf("only %d event ID methods found (reference 3)", nID))
+	// R16.12
+	if fn := w.Method("bridge/gitlab", "gitlabImporter", "ImportAll"); fn != nil {
+		found := false
+		for _, an := range fn.AnonFuncs {
+			for _, cl := range Calls(an) {
+				if cl.Name != "bridge/gitlab.SortedEvents" {
+					continue
+				}
+				found = true
+				c.Sites++
+				why := ""
+				hdr := enclosingLoopHeader(cl.Block())
+				if hdr != nil {
+					for _, cc := range controlConds(cl.Block(), hdr.Idom()) {
+						if isLoopHeader(cc.If.Block()) {
+							continue
+						}
+						// the success edge of an error test
+						if bo, isBo := cc.If.Cond.(*ssa.BinOp); isBo && (bo.Op == token.NEQ || bo.Op == token.EQL) {
+							var ev ssa.Value
+							if isNilConst(bo.Y) {
+								ev = bo.X
+							} else if isNilConst(bo.X) {
+								ev = bo.Y
+							}
+							if ev != nil && isErrorType(ev.Type()) {
+								nilEdge := 1
+								if bo.Op == token.EQL {
+									nilEdge = 0
+								}
+								if cc.Edge == nilEdge {
+									continue
+								}
+							}
+						}
+						why = w.InstrPos(cc.If)
+					}
+				}
+				if why == "" && hdr != nil {
+					// no way round the call back to the loop header (a 'continue' that skips the listing)
+					seen := map[*ssa.BasicBlock]bool{}
+					var q []*ssa.BasicBlock
+					for _, sb := range hdr.Succs {
+						if inLoop(sb, hdr) && sb != cl.Block() {
+							seen[sb] = true
+							q = append(q, sb)
+						}
+					}
+					for len(q) > 0 && why == "" {
+						x := q[0]
+						q = q[1:]
+						for _, sb := range x.Succs {
+							if sb == hdr {
+								why = "the next issue is started from " + w.InstrPos(firstPosInstr(x)) + " without the listing"
+								break
+							}
+							if sb == cl.Block() || seen[sb] || !inLoop(sb, hdr) {
+								continue
+							}
+							seen[sb] = true
+							q = append(q, sb)
+						}
+					}
+				}
+				c.Check(why == "" && hdr != nil, "R16.12", "gitlabImporter.ImportAll:events-listed-for-every-issue", w.InstrPos(cl.Instr), "the events of every listed issue are listed",
+					"the events of a listed issue are fetched only under a condition ("+why+"): an issue judged 'unchanged' is skipped without error, although an earlier round may have failed before importing all of its events — the clean round stores the cursor and those events are never imported")
+			}
+		}
+		if !found {
+			c.Info("R16.12", "gitlabImporter.ImportAll:events-listed-for-every-issue", w.FnPos(fn), "no SortedEvents call: not interpreted")
+		}
+	}
 }
